@@ -414,16 +414,21 @@ func createTypeConverter(typ reflect.Type) (TypeConverter, error) {
 		return nil, errz.TypeErrorf("type error: unsupported recursive type: %s", typ)
 	}
 	convertersInProgress[typ]++
+	beginRegistration()
+	failed := true
 	defer func() {
 		if convertersInProgress[typ]--; convertersInProgress[typ] == 0 {
 			delete(convertersInProgress, typ)
 		}
+		endRegistration(failed)
 	}()
 	conv, err := getTypeConverter(typ)
 	if err != nil {
 		return nil, err
 	}
 	typeConverters[typ] = conv
+	registration.converters = append(registration.converters, typ)
+	failed = false
 	return conv, nil
 }
 
